@@ -196,7 +196,14 @@ def install_varint_contracts(I, limit_bits=None):
             I_.call_value(I_.getattr_(socket, 'send'), [SBytes([atom])], {})
             return None
 
-        def read_model(I_, cls, file_object, _raw=raw_read):
+        def read_model(I_, *a, _raw=raw_read):
+            # classmethod (cls, file_object) or staticmethod (file_object): follow whatever the code declares
+            if len(a) == 2:
+                cls, file_object = a
+            elif len(a) == 1:
+                cls, file_object = B.VarInt, a[0]
+            else:
+                raise Unsupported('VarInt.read contract: unexpected call shape %r' % (a,))
             rd = peek_reader(file_object)
             if rd is not None:
                 rd.skip_empty(I_)
@@ -207,7 +214,7 @@ def install_varint_contracts(I, limit_bits=None):
                 if I_.truth(atom.length > _NOMINAL_MAX[cls.__name__] if not isinstance(atom.length, int) else atom.length > _NOMINAL_MAX[cls.__name__]):
                     raise ValueError('Tried to read too long of a VarInt')
                 return v
-            return I_.call_function(_raw, [cls, file_object], {})
+            return I_.call_function(_raw, list(a), {})
         I.override(raw_send, send_model, kind='contract')
         I.override(raw_read, read_model, kind='contract')
 
